@@ -125,7 +125,27 @@ class GroupCoordinator:
         protocols = [(p["protocol_name"], bytes(p["protocol_metadata"])) for p in obj["group_protocols"]]
         self.c.ev("join_request", group=g.gid, member=mid, protocols=[p[0] for p in protocols],
                   state=g.state, version=cls.API_VERSION, client=info.get("client"))
-        if mid == "":
+        inst = obj.get("group_instance_id") if cls.API_VERSION >= 5 else None
+        if mid == "" and inst:
+            # static member (KIP-345): it is given a member id at once (no MEMBER_ID_REQUIRED round); a member
+            # that registered the same group.instance.id before is replaced by the new member id
+            g.member_seq += 1
+            mid = f"{inst}-{g.member_seq}"
+            self.c.ev("member_id_assigned", group=g.gid, member=mid, client=info.get("client"), static=inst)
+            for x in [x for x, mm in g.members.items() if mm.get("instance_id") == inst]:
+                mm = g.members.pop(x)
+                if mm.get("timer"):
+                    mm["timer"].cancel()
+                for cbn in ("join_cb", "sync_cb"):
+                    if mm.get(cbn):
+                        cbx, mm[cbn] = mm[cbn], None
+                        cbx({"error_code": C.FENCED_INSTANCE_ID, "generation_id": -1, "group_protocol": "",
+                             "leader_id": "", "member_id": x, "members": [], "member_assignment": b""})
+                if g.leader == x:
+                    g.leader = None
+                self.c.ev("static_member_replaced", group=g.gid, old=x, new=mid)
+            g.pending_ids.add(mid)
+        elif mid == "":
             g.member_seq += 1
             mid = f"m{g.member_seq}-{info['cid']}"
             self.c.ev("member_id_assigned", group=g.gid, member=mid, client=info.get("client"))
